@@ -24,14 +24,16 @@ T_ASSUME = ["sequentially consistent interleavings only: reorderings allowed by 
             "sampling, not enumeration"]
 
 K_RULE = ("run i = scenario picked by splitmix(VERIF_SEED, property, i); one xoshiro256** stream draws the kernel configuration (swarm: rates of reordering, short transfer, lazy completion, EINTR, partial submit, "
-          "multishot termination; SQ/CQ entry caps), the runtime configuration (ring capacity, buffer pool), the workload program and then every kernel decision inside io_uring_enter (which enabled event happens next, how many bytes, which fault). "
+          "multishot termination; SQ/CQ entry caps), the runtime configuration (driver: io_uring or polling; ring capacity, buffer pool), the workload program and then every kernel decision inside io_uring_enter (which enabled event happens next, how many bytes, which fault) or, on the polling driver, inside Poller::wait (order of the reported events, when time passes). "
           "A run's signature is the hash of the sequence of (event kind, opcode, result class) chosen by the simulated kernel; 'distinct' counts different signatures, 'non-trivial' those of runs in which a fault fired or more than one event was enabled at some decision.")
-K_REAL = ["compio-runtime, compio-driver (io_uring driver, feature verif), compio-executor, compio-fs, compio-net, compio-io, compio-buf", "the userspace half of the io-uring crate (ring code, opcode builders)",
+K_REAL = ["compio-runtime, compio-driver (io_uring driver and polling driver, feature verif), compio-executor, compio-fs, compio-net, compio-io, compio-buf", "the userspace half of the io-uring crate (ring code, opcode builders)", "the polling crate's epoll backend, asked with zero time-outs only (vendored: its wait loop is replaced)",
           "real kernel objects behind the descriptors (pipes, socketpairs, loopback sockets, files): the simulated kernel performs the real non-blocking system call at the step it chooses"]
 K_STUB = ["the kernel side of io_uring (crates/simkernel): SQE consumption, completion timing/order/short counts, CQ overflow, cancellation races, provided-buffer selection, probe", "the clock (clock_gettime interposed; simulated time jumps to the next deadline when idle)",
-          "blocking-pool threads: jobs are queued kernel events run inline (virtual pool, hook H1)"]
+          "blocking-pool threads: jobs are queued kernel events run inline (virtual pool, hook H1)",
+          "the waiting half of Poller::wait (polling driver runs): nothing blocks; when no descriptor is ready simulated time jumps to the caller's deadline or the next environment action"]
 K_ASSUME = ["CQEs become visible at io_uring_enter boundaries only (as with DEFER_TASKRUN); SQPOLL, SQE128/CQE32 and linked SQEs are not modelled",
             "the simulated kernel never invents behaviour the kernel cannot show; its fidelity is checked against compio's own test-suite (all 217 tests pass on it in benign mode)",
+            "polling-driver runs take readiness from the real epoll instance at the instants the simulator looks: local pipes and sockets become ready synchronously with the peer's system call, so the same choices give the same run",
             "sampling, not enumeration"]
 
 PROPS = {
@@ -259,12 +261,11 @@ PROPS = {
             "prompt = finished within 300 µs of simulated time after the cancellation instant (the loop needs a few enters to submit the AsyncCancel and see both completions)",
             "a multishot stream under a fired token ends (None) instead of yielding a cancellation error; that is accepted as the cancelled outcome",
             "on a shared descriptor at most one receiver expects data, and cancelled receivers there never race with data (bytes go to the oldest pending receive)",
-            "only the io_uring driver; the polling driver's cancel path is not explored by this check",
         ],
-        "level_text": ("Seeded exploration of cancellation programs on the real runtime and io_uring driver over the simulated kernel: every cancelled victim finishes within the slack of its cancellation instant although its event never comes, "
+        "level_text": ("Seeded exploration of cancellation programs on the real runtime and both drivers over the simulated kernel: every cancelled victim finishes within the slack of its cancellation instant although its event never comes, "
                        "with a cancellation error, Elapsed, or its genuine data (checked against what its peer wrote and when); no victim reports cancellation before anybody cancelled; neighbours (also on the same descriptor) finish with exactly their own data at their own time; "
                        "after all tasks ended no operation is left pending in the kernel and the runtime never blocks in io_uring_enter with nothing that could wake it."),
-        "level_note": "Covers drop / token / late token / fail-fast / timeout routes against UnixStream recv, pipe read, TcpListener accept and read_multi. Connect and poll-fd victims and the polling driver are not covered.",
+        "level_note": "Covers drop / token / late token / fail-fast / timeout routes against UnixStream recv, pipe read, TcpListener accept and read_multi. Both drivers. Connect and poll-fd victims are not covered.",
     },
     "C09": {
         "title": "Timers never fire early and always fire",
